@@ -146,7 +146,15 @@ type rstate struct {
 }
 
 func runR(input []byte, ops []rop) (string, []rstate) {
-	in := append([]byte(nil), input...)
+	// the input is a window of a larger array (as a frame cut out of a connection buffer is); what lies behind it
+	// must stay out of reach of everything the reader hands out
+	big := make([]byte, len(input)+48)
+	copy(big, input)
+	for i := len(input); i < len(big); i++ {
+		big[i] = 0xEE
+	}
+	in := big[:len(input)]
+	beyond := false
 	r := packet.NewPacketReader(in)
 	var sb strings.Builder
 	var sts []rstate
@@ -166,7 +174,19 @@ func runR(input []byte, ops []rop) (string, []rstate) {
 		case "rn":
 			st.val = []byte(r.ReadCStringNWithoutTrim(o.n))
 		case "nb":
-			st.val = r.ReadNBytes(o.n)
+			got := r.ReadNBytes(o.n)
+			st.val = append([]byte(nil), got...)
+			// the result is the caller's: overwrite it, and everything its capacity reaches, before reading on
+			full := got[:cap(got)]
+			for j := range full {
+				full[j] = 0xA5
+			}
+			for j := len(input); j < len(big); j++ {
+				if big[j] != 0xEE {
+					beyond = true
+					big[j] = 0xEE
+				}
+			}
 		case "c":
 			st.val = []byte(r.ReadCString())
 		case "rb":
@@ -184,6 +204,9 @@ func runR(input []byte, ops []rop) (string, []rstate) {
 		} else {
 			fmt.Fprintf(&sb, "%s,%d,%s", hx(st.val), st.rem, st.err)
 		}
+	}
+	if beyond {
+		sb.WriteString(" RESULT-REACHES-BEYOND-THE-INPUT")
 	}
 	return sb.String(), sts
 }
